@@ -41,7 +41,7 @@ var c04Ops = []c04Op{
 }
 
 func runC04(c *wk.Ctx) {
-	c.Meta("rule", "per case: a generated schema (all 15 kinds, nested, map-based and struct-mapped objects over a pool of Go types, typed enums, one-of inlined/not, treat-empty-as-default, units, defaults, presence rules, scopes with recursive references) built through the public constructors; then Unserialize / data-mode ValidateCompatibility / Validate / Serialize are called with (a) each of ~66 hostile values (nil, typed nils, wrong kinds, NaN/Inf/2^63, uint64 max, []byte, cbor.Tag, big.Int, time, typed maps/slices, mixed / NaN / bool / array map keys, named scalars, pointers, wrong structs, funcs, chans) at the root, (b) the same substituted at a random position of an otherwise valid input, (c) valid inputs in alternative representations and their CBOR image, (d) the unserialized native value and hostile substitutions in it, (e) 2000-deep nesting, also with an unacceptable value (nil, a func, a string) at the bottom. Each call is journalled before it is made (fatal crashes are attributed by the parent) and guarded (recovered panics). distinct = hash(root kind, position kind, operation, dynamic type); a case is non-trivial when the hostile value is placed below the root")
+	c.Meta("rule", "per case: a generated schema (all 15 kinds, nested, map-based and struct-mapped objects over a pool of Go types, typed enums, one-of inlined/not, treat-empty-as-default, units, defaults, presence rules, scopes with recursive references) built through the public constructors; then Unserialize / data-mode ValidateCompatibility / Validate / Serialize are called with (a) each of ~66 hostile values (nil, typed nils, wrong kinds, NaN/Inf/2^63, uint64 max, []byte, cbor.Tag, big.Int, time, typed maps/slices, mixed / NaN / bool / array map keys, named scalars, pointers, wrong structs, funcs, chans) at the root, (b) the same substituted at a random position of an otherwise valid input, (c) valid inputs in alternative representations and their CBOR image, (d) the unserialized native value and hostile substitutions in it, (e) 2000-deep nesting, also with an unacceptable value (nil, a func, a string) at the bottom. Each call is journalled before it is made (fatal crashes are attributed by the parent) and guarded (recovered panics). distinct = hash(root kind, position kind, operation, dynamic type); a case is non-trivial when the hostile value is placed below the root Directed: chains of 4..49 single-property objects around int[0,10] with lone values of every kind (the work must stay proportional to the chain).")
 	c.Meta("assumptions", []string{"struct-mapped objects range over a fixed pool of 11 Go types", "a non-terminating call is decided by CPU time of the worker on one journalled call (20 s), see DESIGN.md §1"})
 	c.Floor("calls", 20000)
 	for k := 0; k < gen.NKinds; k++ {
